@@ -1534,6 +1534,20 @@ class Sym:
         t = ("call", callee or trait_callee or "?", tuple(args), site)
         if self.is_effect(callee or trait_callee, args, n, st):
             self.add_effect(st, "call", callee or trait_callee, args, n, t)
+        # a local `[v; N]` array handed by `&mut` to code that is not expanded holds unknown contents afterwards
+        fid = self.frame_id(st)
+        for a in ([n["recv"]] if n.get("k") == "mcall" else []) + list(n.get("args", [])):
+            x = a
+            if x.get("k") == "addrof" and x.get("mut"):
+                x = H.strip(x["e"])
+            elif not (x.get("k") == "path" and (x.get("ty_adj") or "").startswith("&mut") and not (x.get("ty") or "").startswith("&")):
+                continue
+            if x.get("k") == "path" and x["res"].get("rk") == "Local":
+                for f2 in self.frame_chain(st):
+                    old = st.env.get((f2, x["res"]["id"]))
+                    if old is not None and old[0] == "repeat":
+                        st.env[(f2, x["res"]["id"])] = ("mutated", old, site)
+                        break
         return [(st, t)]
 
     def body_for(self, callee):
